@@ -41,9 +41,16 @@ struct LeafFailure { int leaf; int inst; };
 // a second, non-exception error type
 struct Err { int code; };
 
+// what an error slot inside a destroyed leaf operation state holds: reading it means an adaptor kept a reference to the error it was
+// handed after destroying the child operation the error lived in
+struct DeadErrorSlot {};
+inline const std::exception_ptr& dead_error_slot() { static const std::exception_ptr p = std::make_exception_ptr(DeadErrorSlot{}); return p; }
+
 // error identity, comparable between implementation and model
 inline long error_code(const std::exception_ptr& e) {
+  if (!e) return 4444445;
   try { std::rethrow_exception(e); }
+  catch (const DeadErrorSlot&) { return 4444444; }
   catch (const Injected&) { return 1000000; }
   catch (const LeafFailure& f) { return 2000000 + f.leaf * 100 + f.inst; }
   catch (...) { return 999; }
@@ -401,6 +408,7 @@ struct Leaf {
     struct Empty {};
     using slot_t = std::conditional_t<std::is_void_v<Value>, Empty, Value>;
     unifex::manual_lifetime<slot_t> slot; bool slot_live = false;
+    unifex::manual_lifetime<std::exception_ptr> eslot; bool eslot_live = false;   // the same for errors
 
     Op(int leaf, R&& rr) : id(leaf), inst(-1), r((R &&) rr) {
       W().connects++;
@@ -410,6 +418,7 @@ struct Leaf {
     ~Op() {
       if (destroyed_flag) *destroyed_flag = true;
       if (slot_live) { slot_live = false; slot.destruct(); }
+      if (eslot_live) { eslot_live = false; eslot.get() = dead_error_slot(); }   // (not destructed: the storage keeps a recognisable value; the sentinel object stays reachable through the global)
       W().op_destroys++;
       if (inst < 0) { SR_TR("leaf%d (never started) destroyed", id); return; }
       auto& run = W().run(id, inst);
@@ -525,6 +534,10 @@ struct Leaf {
         }
       } else if (chan == ERROR) {
         (void)errkind;
+        if ((L + I) % 2 == 0 && W().values_in_op_state) {
+          eslot.construct(std::make_exception_ptr(LeafFailure{L, I})); eslot_live = true;
+          unifex::set_error(std::move(r), std::move(eslot.get()));
+        } else
         unifex::set_error(std::move(r), std::make_exception_ptr(LeafFailure{L, I}));
       } else {
         if constexpr (SendsDone) unifex::set_done(std::move(r));
